@@ -90,8 +90,10 @@ class C04(InterpProp):
             'configuration, context and pending event are unchanged and no code ran; non-trivial = a run in which '
             '≥2 transitions were selected at once')
 
+    owns_construction = True
+
     def knobs(self, rnd, tier):
-        return gen.Knobs(avoid_nondet=False, p_orth=0.6, trans_per_owner=rnd.choice([2.5, 4.0]), p_guard=0.25, p_eventless=0.08,
+        return gen.Knobs(dups=rnd.choice([0, 0, 0.15]), avoid_nondet=False, p_orth=0.6, trans_per_owner=rnd.choice([2.5, 4.0]), p_guard=0.25, p_eventless=0.08,
                          max_states=rnd.choice([6, 10, 16]), p_history=0.15, nested_targets=0.3, flags=2)
 
     def make_ops(self, rnd, knobs, sc):
